@@ -127,11 +127,11 @@ def check(pid, tier, seed=0, jobs=None, only=None, keep_work=False):
         variants.append(dict(func=spec.name, name=vbase, extra_pre=base_pre + spre_l + excl, twin=None))
         tasks.append(dict(kind='X', spec=spec, module=mpath, name=vbase, role='main', timeout=timeout,
                           per_path=cfg.get('per_path_timeout')))
-        for k in regions:
-          kn = '%s__known_%s' % (vbase, gen.safe(k['id']))
-          variants.append(dict(func=spec.name, name=kn, extra_pre=base_pre + spre_l + [k['region']], twin=None))
-          tasks.append(dict(kind='X', spec=spec, module=mpath, name=kn, role='known', known=k,
-                            timeout=min(timeout, float(k.get('timeout', timeout))), per_path=cfg.get('per_path_timeout')))
+      for k in regions:   # one run per finding (not per shard): its region must still yield the counterexample
+        kn = '%s__known_%s' % (spec.name, gen.safe(k['id']))
+        variants.append(dict(func=spec.name, name=kn, extra_pre=base_pre + [k['region']], twin=None))
+        tasks.append(dict(kind='X', spec=spec, module=mpath, name=kn, role='known', known=k,
+                          timeout=min(timeout, float(k.get('timeout', timeout))), per_path=cfg.get('per_path_timeout')))
       # reachability twins: once per harness (first shard), tier preconditions included
       label0, spre0 = shards[0]
       twin_pre = base_pre + ([spre0] if spre0 else [])
